@@ -21,7 +21,7 @@ sys.path.insert(0, HERE)
 import extract  # noqa: E402
 
 VERUS_FLAGS = ["--edition=2024", "--output-json", "--time-expanded", "--triggers-mode", "silent",
-               "--multiple-errors", "20", "--error-format=json", "--rlimit", "400"]
+               "--multiple-errors", "20", "--error-format=json", "--rlimit", "400", "--num-threads", "16"]
 GENUINE = ("postcondition not satisfied", "precondition not satisfied", "assertion failed",
            "invariant not satisfied", "possible arithmetic underflow/overflow", "possible division by zero",
            "decreases not satisfied", "loop invariant", "index out of bounds", "recommendation not met",
